@@ -16,6 +16,8 @@ STRENGTHENED = {
     "C16": "new oracle `roundtrip_missing_rows` (numeric tables, everyday delimiters incl. tab, empty/short markers, a row in which every cell is missing); everyday delimiters and the empty marker over-sampled elsewhere",
     "C17": "half of the postfixes come from a pool of names that are prefixes / suffixes / underscore-delimited tails of one another",
     "C18": "points on the coordinate axes (ridge axis and surface of the corner flow) are planted; gradient errors are scaled by the natural magnitude U/r so that an identically vanishing closed form is handled",
+    "C03c": "orientations and frames rotated by multiples of 90 degrees built from Euler angles (entries ~6e-17 instead of exact zeros; `gen._euler90`), optional re-expression of every case in a rotated frame, and the exhaustive oracle `degenerate_grid` (24 aligned grains x 64 such frames x 18 axis-aligned flows x 3 scales per generated fabric/parameter set)",
+    "C07c": "new failure kind `bad_phase_unlisted`: a mineral with an invalid phase ordinal that the (valid) assemblage does not list",
     "C10c": "new oracle `stiffness_mutation_sequence`: one StiffnessTensors instance is reused for several averages with its attributes reassigned in between (the documented way to set custom stiffnesses), and the default instance is checked afterwards",
     "C14b": "the uniform-texture limit is now compared with the independent correct M-index of the same texture (M <= M_ref + 0.02) instead of a loose multiple of it",
     "C20": "new differential part of `point_density`: raw estimates are rebuilt from the documented counting grid with pydrex's kernel functions, normalised, clipped and compared (1e-9)",
